@@ -149,7 +149,19 @@ def build_expression(
                 # Only exceptions is 'abs' which is 'Abs'
                 funcname = "Abs"
 
-            return getattr(sp, funcname)(*[expr2symbols(c) for c in tree.children[1:]])
+            args = [expr2symbols(c) for c in tree.children[1:]]
+            if funcname in ("floor", "Mod"):
+                # These functions inspect their arguments (is_integer) when they are
+                # created, and sympy draws wrong conclusions for quotients with an even
+                # numerator and denominator: the unevaluated 4*10**(-1) (i.e 4/10) and
+                # Conditional(c, -2, 2)/10 are considered to be integers, so that
+                # floor(x + 4/10) became floor(x) + 2/5. Do not evaluate them, unless all
+                # arguments are numbers (which are evaluated first).
+                args = [sp.sympify(arg) for arg in args]
+                if all(arg.is_number for arg in args):
+                    return getattr(sp, funcname)(*[arg.doit() for arg in args])
+                return getattr(sp, funcname)(*args, evaluate=False)
+            return getattr(sp, funcname)(*args)
 
         if tree.data == "logicalfunc":
             if tree.children[0] == "Conditional":
